@@ -393,7 +393,12 @@ class LatticeColumn:
         c = self.o[matching.obs_ne]
         if matching.key in c:
             other_matching = c[matching.key]  # type: BaseMatching
+            was_stopped = other_matching.stop
             other_matching.update(matching)
+            if was_stopped and not other_matching.stop:
+                # A stopped entry is only kept for debug output: order the entry as if it is inserted now
+                del c[matching.key]
+                c[matching.key] = other_matching
         else:
             c[matching.key] = matching
         return c[matching.key]
